@@ -547,6 +547,29 @@ def check_loop_state(prog, run, funcs, scope, floor):
                        % (v, "a container created before the loop and changed (%s)" % ", ".join(sorted(ops)) if kind == "container"
                           else "assigned on some paths only", _txt(L.iter if not isinstance(L, ast.While) else L.test)[:60],
                           _txt(getattr(node, "_parent", node))[:70]))
+    # a parameter overwritten inside a `for` body with a value that does not depend on it (not the fold `x = f(x)`): what the
+    # caller passed is gone for the iterations that follow
+    for f in funcs:
+        if isinstance(f.node, ast.Lambda):
+            continue
+        params = set(f.all_params)
+        for L in own_walk(f.node):
+            if not isinstance(L, (ast.For, ast.AsyncFor)):
+                continue
+            for st in L.body:
+                for x in ast.walk(st):
+                    if isinstance(x, (ast.FunctionDef, ast.AsyncFunctionDef, ast.Lambda)):
+                        continue
+                    if isinstance(x, ast.Assign) and len(x.targets) == 1 and isinstance(x.targets[0], ast.Name) and x.targets[0].id in params:
+                        p_ = x.targets[0].id
+                        if any(isinstance(y, ast.Name) and y.id == p_ for y in ast.walk(x.value)):
+                            continue
+                        reads = [y for s2 in L.body for y in ast.walk(s2) if isinstance(y, ast.Name) and y.id == p_ and isinstance(y.ctx, ast.Load)]
+                        if reads:
+                            run.report(r, "%s:%s:parameter-overwritten-in-loop(%s)" % (f.module.name, f.qualname, p_), f.where(x),
+                                       "the parameter `%s` is overwritten inside the loop over `%s` (`%s`) and read there: the iterations that "
+                                       "follow see the value one element left behind instead of what the caller passed"
+                                       % (p_, _txt(L.iter)[:50], _txt(x)[:70]))
     r.instance("%d loops scanned" % n_loops, nontrivial=False)
 
 
